@@ -221,11 +221,14 @@ def run(case):
                 i_in = "idx.txt"
             out.label(f"idx:{c['idx_as']}", "from1" if c["from1"] else "from0", "single_index" if len(given) == 1 else "multi_index")
             keep_idx = i_in.copy() if isinstance(i_in, np.ndarray) else None
+            # the flag as a caller may hold it: the builtin, numpy's boolean (the result of a comparison) or 0 / 1
+            from1_arg = [bool(c["from1"]), np.bool_(c["from1"]), int(bool(c["from1"]))][(len(given) + n) % 3]
+            out.label(f"from1_flag_as:{type(from1_arg).__name__}")
             if c.get("positional"):  # the documented order of the first four parameters
                 out.label("remove:positional_arguments")
-                fn = lambda x: tiltstack.remove_tilts(x, i_in, c["from1"], outfile, **kw)
+                fn = lambda x: tiltstack.remove_tilts(x, i_in, from1_arg, outfile, **kw)
             else:
-                fn = lambda x: tiltstack.remove_tilts(x, i_in, numbered_from_1=c["from1"], output_file=outfile, **kw)
+                fn = lambda x: tiltstack.remove_tilts(x, i_in, numbered_from_1=from1_arg, output_file=outfile, **kw)
         elif op == "flip":
             axes = c["axes"]
             exp = I
